@@ -297,7 +297,10 @@ def topostress(spec):
             continue
         n = 1 if scheme == "single" else rng.randint(1, 2) if scheme == "many" else rng.randint(2, 5)
         seq = [rng.choice(topo.AMINO) for _ in range(n)]
-        chains.append(S.peptide(seq, rng, hydrogens=rng.choice(["none", "none", "all"]), cterm_oxt=True))
+        # chain ends that are marked by TER / a new chain id do not need OXT in the input (it is rebuilt); the schemes
+        # whose ends are visible only through OXT keep it
+        oxt = True if scheme in ("merged_oxt", "repeated_oxt", "many") else rng.random() < 0.5
+        chains.append(S.peptide(seq, rng, hydrogens=rng.choice(["none", "none", "all"]), cterm_oxt=oxt))
         kinds.append("aa")
     S.scatter(chains, rng, gap=4.0)
     entries = []
@@ -472,9 +475,44 @@ def apply_aliases(out, rng, prob):
     return out
 
 
+def apply_carboxyl_asymmetry(out, rng, prob):
+    """Make the two C-O bonds of some ASP / GLU side-chain carboxyl groups unequal (one oxygen moved 0.06-0.14 A
+    outwards along its bond), as in atomic-resolution structures of protonated acids: the hydrogen-bond optimiser
+    treats the longer bond as the hydroxyl."""
+    items, truth = out["items"], out["truth"]
+    blocks = _blocks(items)
+    if len(blocks) != len(truth):
+        return out
+    n = 0
+    for (seg, atoms), t in zip(blocks, truth):
+        if t["kind"] != "aa" or t["base"] not in ("ASP", "GLU") or rng.random() >= prob:
+            continue
+        c, o1, o2 = ("CG", "OD1", "OD2") if t["base"] == "ASP" else ("CD", "OE1", "OE2")
+        byname = {a["name"]: a for a in atoms}
+        if not all(k in byname for k in (c, o1, o2)):
+            continue
+        o = byname[rng.choice([o1, o1, o2])]
+        cc = np.array([byname[c]["x"], byname[c]["y"], byname[c]["z"]])
+        oo = np.array([o["x"], o["y"], o["z"]])
+        u = (oo - cc) / np.linalg.norm(oo - cc)
+        d = rng.uniform(0.06, 0.14)
+        hs = [a for a in atoms if a["name"].startswith("H") and
+              np.linalg.norm(np.array([a["x"], a["y"], a["z"]]) - oo) < 1.2]
+        for a in [o] + hs:                      # a hydrogen on that oxygen rides along
+            a["x"], a["y"], a["z"] = (round(float(v), 3) for v in np.array([a["x"], a["y"], a["z"]]) + d * u)
+        t["carboxyl_long_bond"] = o["name"]
+        n += 1
+    if n:
+        out["text"] = pdbfmt.to_text(items)
+        out.setdefault("meta", {})["carboxyl_asymmetric"] = n
+    return out
+
+
 def materialise(spec):
     out = _materialise(spec)
     p = spec.get("p") or {}
+    if p.get("carboxyl_asym_prob") and "items" in out:
+        apply_carboxyl_asymmetry(out, random.Random(spec["seed"] + 12), p["carboxyl_asym_prob"])
     if p.get("alias_prob") and "items" in out:
         apply_aliases(out, random.Random(spec["seed"] + 13), p["alias_prob"])
     if p.get("gap_prob") and "items" in out and random.Random(spec["seed"] + 15).random() < p["gap_prob"]:
